@@ -10,7 +10,21 @@
 (* Observable events:                                                      *)
 (*   Inc(m, t, amt)     counter / rate metric m incremented for source t    *)
 (*   Set(m, t, v)       gauge m set to v for source t                       *)
-(*   Sample(m, t, v)    sample v recorded for percentile metric m, source t *)
+(*   IncRun(m, ts, amts)  a run of increments in one event: for i = 1..Len(ts)  *)
+(*        in order, Inc(m, ts[i], amts[i]) (compact encoding of histories   *)
+(*        with thousands of sources; same meaning, nothing sampled)         *)
+(*   Sample(m, t, v, room, took)  sample v recorded for percentile metric m, *)
+(*        source t.  room/took observe where the recording landed:          *)
+(*        room = 1: before the call the series of t in VARZ_DATA[m] was     *)
+(*        absent or held fewer samples than the reservoir capacity (so the  *)
+(*        reservoir cannot have declined the sample), 0: it was full,       *)
+(*        -1: not observable; took = 1: after the call VARZ_DATA[m] has a    *)
+(*        series for t and it differs from before the call (it took the     *)
+(*        sample), 0: no series for t, or the series is unchanged,          *)
+(*        -1: not observable                                                *)
+(*   Tick(dt)           the low-resolution clock advanced by dt seconds.    *)
+(*        C18 does not mention time or age: the machine ignores the event   *)
+(*        (it is in the trace so that a history can be read and replayed).  *)
 (*   Agg(m, sel, key, total, series, cnt, pcts, lo, hi)                     *)
 (*        one entry of VarzAggregator.Aggregate(..., key_selector = sel):  *)
 (*        aggregate `total` (scaled by ascale) reported under `key` for    *)
@@ -35,9 +49,21 @@
 (*                the number of series of a metric is at most the number   *)
 (*                of distinct sources recorded, and an aggregate entry is  *)
 (*                folded from at most as many series as it has distinct    *)
-(*                sources                                                  *)
+(*                sources; and a sample recorded for source t while t's     *)
+(*                series had room lands in that series (it is not put into  *)
+(*                a second series that VARZ_DATA does not show), whichever  *)
+(*                holder or equal Source object carried the recording       *)
 (*   C18.percentileBounds  percentiles reported for a single source:       *)
-(*                lo <= p50 <= p90 <= p99 <= p99.9 <= p99.99 <= hi          *)
+(*                lo <= p50 <= p90 <= p99 <= p99.9 <= p99.99 <= hi.         *)
+(*                An entry that says it was folded from no series at all    *)
+(*                (cnt = 0: scales' aggregator leaves out reservoirs not    *)
+(*                updated for MAX_AGG_AGE and then reports zeros) reports   *)
+(*                percentiles of nothing: there is no retained sample to    *)
+(*                compare with, the clause does not apply.  The statement   *)
+(*                neither grants nor forbids an age limit, so the oracle    *)
+(*                knows no age: it never *requires* an old sample to be     *)
+(*                dropped or kept; bounds are judged against the samples    *)
+(*                the contributing series retains (lo, hi as observed)      *)
 (***************************************************************************)
 EXTENDS Integers, Sequences, FiniteSets, FiniteSetsExt, TLC
 
@@ -83,7 +109,30 @@ IncUpd(m, t, amt) == Put(m, t, [Cell(m, t) EXCEPT !.sum = @ + amt]) /\ UNCHANGED
 SetCheck(m, t, v) == UpdSane(m, t, {"gauge"})
 SetUpd(m, t, v) == Put(m, t, [Cell(m, t) EXCEPT !.last = v]) /\ UNCHANGED <<akinds, ascale>>
 
-SampleCheck(m, t, v) == UpdSane(m, t, PctKinds)
+IncRunSane(m, ts, amts) ==
+  IF m \notin DOMAIN akinds THEN "harness.metric"
+  ELSE IF akinds[m] \notin IncKinds THEN "harness.kind"
+  ELSE IF Len(ts) # Len(amts) \/ Len(ts) = 0 THEN "harness.run"
+  ELSE IF \E i \in DOMAIN ts : Len(ts[i]) # 4 THEN "harness.source"
+  ELSE "ok"
+IncRunCheck(m, ts, amts) == IncRunSane(m, ts, amts)
+\* the state after Inc(m, ts[1], amts[1]), ..., Inc(m, ts[n], amts[n]); a source may occur several times
+IncRunUpd(m, ts, amts) ==
+  LET R == {ts[i] : i \in DOMAIN ts}
+      add == [t \in R |-> FoldSet(LAMBDA i, acc : IF ts[i] = t THEN acc + amts[i] ELSE acc, 0, DOMAIN ts)]
+      old == adata[m]
+  IN /\ adata' = [adata EXCEPT ![m] = [x \in DOMAIN old \cup R |->
+                     IF x \in R THEN LET c == IF x \in DOMAIN old THEN old[x] ELSE Fresh
+                                     IN [c EXCEPT !.sum = @ + add[x]]
+                     ELSE old[x]]]
+     /\ UNCHANGED <<akinds, ascale>>
+
+\* "lands in one series": the reservoir had room, yet the series of t that VARZ_DATA shows did not take the sample
+SampleCheck(m, t, v, room, took) ==
+  IF UpdSane(m, t, PctKinds) # "ok" THEN UpdSane(m, t, PctKinds)
+  ELSE IF room \notin {-1, 0, 1} \/ took \notin {-1, 0, 1} THEN "harness.landed"
+  ELSE IF room = 1 /\ took = 0 THEN "C18.oneSeries"
+  ELSE "ok"
 SampleUpd(m, t, v) == Put(m, t, [Cell(m, t) EXCEPT !.vals = @ \cup {v}]) /\ UNCHANGED <<akinds, ascale>>
 
 \* ---- aggregation -----------------------------------------------------------
@@ -109,7 +158,7 @@ AggFail(m, sel, key, total, series, cnt, pcts, lo, hi) ==
         \/ c = "C18.sum" /\ kind \in SumKinds /\ total # ascale * GroupSum(m, G)
         \/ c = "C18.gauge" /\ kind = "gauge" /\ Cardinality(G) = 1
                            /\ total # ascale * adata[m][TheOne(G)].last
-        \/ c = "C18.percentileBounds" /\ kind \in PctKinds /\ Cardinality(G) = 1
+        \/ c = "C18.percentileBounds" /\ kind \in PctKinds /\ Cardinality(G) = 1 /\ cnt # 0
                            /\ ~PctOk(m, TheOne(G), pcts, lo, hi)
         \/ c = "C18.oneSeries" /\ (series > Cardinality(DOMAIN adata[m]) \/ cnt > Cardinality(G))}
 
@@ -142,7 +191,10 @@ AggUpd == UNCHANGED avars
 
 Inc(m, t, amt) == IncCheck(m, t, amt) = "ok" /\ IncUpd(m, t, amt)
 Set(m, t, v) == SetCheck(m, t, v) = "ok" /\ SetUpd(m, t, v)
-Sample(m, t, v) == SampleCheck(m, t, v) = "ok" /\ SampleUpd(m, t, v)
+IncRun(m, ts, amts) == IncRunCheck(m, ts, amts) = "ok" /\ IncRunUpd(m, ts, amts)
+Sample(m, t, v, room, took) == SampleCheck(m, t, v, room, took) = "ok" /\ SampleUpd(m, t, v)
+TickCheck(dt) == IF dt < 0 THEN "harness.tick" ELSE "ok"
+Tick(dt) == TickCheck(dt) = "ok" /\ AggUpd
 Agg(m, sel, key, total, series, cnt, pcts, lo, hi) ==
   AggCheck(m, sel, key, total, series, cnt, pcts, lo, hi) = "ok" /\ AggUpd
 AggDone(m, sel, nkeys) == AggDoneCheck(m, sel, nkeys) = "ok" /\ AggUpd
